@@ -126,6 +126,8 @@ impl HuffScen {
             match prop {
                 1 => matches!(o, "just-pushed-item-differs" | "just-pushed-differs" | "push-refused-inside-statistics" | "refused-representable-input" | "merge-panicked"),
                 2 => matches!(o, "earlier-item-differs"),
+                // C04 is about the strings handed out: read-back oracles only
+                4 => matches!(o, "just-pushed-differs" | "earlier-item-differs"),
                 _ => true,
             }
         };
